@@ -131,6 +131,8 @@ struct Subject {
     run: Box<dyn Fn(usize, &[Att], usize, usize) -> (Outcome<R>, Net)>,
     /// how many different malformed replies the subject knows (the last argument of `run` selects one)
     malformed_alternatives: usize,
+    /// several request positions faulted in one query: one outcome vector per position
+    run_multi: Option<Box<dyn Fn(&[Vec<Att>], usize) -> (Outcome<R>, Net)>>,
     /// does this send start an attempt at position p?
     is_attempt: Box<dyn Fn(usize, &[u8]) -> bool>,
     positions: usize,
@@ -162,6 +164,7 @@ fn simple_subject<T: 'static>(name: &'static str, is_request: fn(&[u8]) -> bool,
         positions: 1,
         try_positions: vec![],
         unit: false,
+        run_multi: None,
         malformed_alternatives: malformed.len(),
         is_attempt: Box::new(move |_, d| is_request(d)),
         run: Box::new(move |_pos, plan, r, alt| {
@@ -192,10 +195,30 @@ fn subjects(rng: &mut Rng) -> Vec<Subject> {
             [vec![0xff, 0xff, 0xff, 0xff, 0x44, 0x05, 0x00], vec![0xff, 0xff, 0xff, 0xff, 0x44, 0x02, 0x00, 0x41, 0x00, 0x01, 0x00, 0x00, 0x00, 0x00, 0x00, 0x80, 0x3f, 0x01]],
             [vec![0xff, 0xff, 0xff, 0xff, 0x45, 0x09], vec![0xff, 0xff, 0xff, 0xff, 0x45, 0x09]],
         ];
+        let (i2, p2, ru2, mal2) = (i.clone(), p.clone(), ru.clone(), malformed.clone());
         v.push(Subject {
             name: if try_mode { "valve(try)" } else { "valve(enforce)" },
             positions: 3,
             unit: false,
+            run_multi: Some(Box::new(move |plans, r| {
+                let mut server = A2sServer::new(i2.clone(), p2.clone(), ru2.clone());
+                let valid = [i2.clone(), p2.clone(), ru2.clone()];
+                for (pos, plan) in plans.iter().enumerate().take(3) {
+                    server.plan[pos] = plan
+                        .iter()
+                        .map(|a| match a {
+                            Att::Valid => Behaviour::Answer(valid[pos].clone()),
+                            Att::Silent => Behaviour::Silent,
+                            Att::SendFails => Behaviour::SendFails,
+                            Att::Malformed => Behaviour::Answer(vec![mal2[pos][0].clone()]),
+                        })
+                        .chain(std::iter::once(Behaviour::Answer(valid[pos].clone())))
+                        .collect();
+                }
+                let a = addr();
+                let run = run_with(server, DEFAULT_STEP_LIMIT, || valve::query(&a, engine, Some(gs), ts(r)));
+                (to_r(run.outcome, c08_valve_render), run.net)
+            })),
             malformed_alternatives: 2,
             try_positions: if try_mode { vec![1, 2] } else { vec![] },
             is_attempt: Box::new(|p, d| match p {
@@ -286,6 +309,7 @@ fn subjects(rng: &mut Rng) -> Vec<Subject> {
             positions: 3,
             try_positions: vec![],
             unit: true,
+            run_multi: None,
             malformed_alternatives: 2,
             is_attempt: Box::new(|p, d| if p != 1 { d == [0xfe, 0xfd, 0x09, 0, 0, 0, 1] } else { d.len() >= 7 && d[.. 3] == [0xfe, 0xfd, 0x00] }),
             run: Box::new(move |pos, plan, r, alt| {
@@ -304,6 +328,7 @@ fn subjects(rng: &mut Rng) -> Vec<Subject> {
             positions: 3,
             try_positions: vec![],
             unit: true,
+            run_multi: None,
             malformed_alternatives: 2,
             is_attempt: Box::new(|p, d| if p != 1 { d == [0xfe, 0xfd, 0x09, 0, 0, 0, 1] } else { d.len() >= 7 && d[.. 3] == [0xfe, 0xfd, 0x00] }),
             run: Box::new(move |pos, plan, r, alt| {
@@ -320,10 +345,29 @@ fn subjects(rng: &mut Rng) -> Vec<Subject> {
         let (info, rules, players) = (st.info_datagram(), st.rules_datagrams(1), st.players_datagrams(1, true));
         let toggle = if try_mode { GatherToggle::Try } else { GatherToggle::Enforce };
         let gs = unreal2::GatheringSettings { players: toggle, mutators_and_rules: toggle };
+        let (info2, rules2, players2) = (info.clone(), rules.clone(), players.clone());
         v.push(Subject {
             name: if try_mode { "unreal2(try)" } else { "unreal2(enforce)" },
             positions: 3,
             unit: false,
+            run_multi: Some(Box::new(move |plans, r| {
+                let mut server = U2Server::new(info2.clone(), rules2.clone(), players2.clone());
+                let valid: [Vec<Vec<u8>>; 3] = [vec![info2.clone()], rules2.clone(), players2.clone()];
+                for (pos, plan) in plans.iter().enumerate().take(3) {
+                    server.plan[pos] = plan
+                        .iter()
+                        .map(|a| match a {
+                            Att::Valid => UBehaviour::Answer(valid[pos].clone()),
+                            Att::Silent => UBehaviour::Silent,
+                            Att::SendFails => UBehaviour::SendFails,
+                            Att::Malformed => UBehaviour::Answer(vec![vec![0x80, 0, 0, 0, 0x07]]),
+                        })
+                        .chain(std::iter::once(UBehaviour::Answer(valid[pos].clone())))
+                        .collect();
+                }
+                let run = run_with(server, DEFAULT_STEP_LIMIT, || unreal2::query(&addr(), &gs, ts(r)));
+                (to_r(run.outcome, c08_u2_render), run.net)
+            })),
             malformed_alternatives: 3,
             try_positions: if try_mode { vec![1, 2] } else { vec![] },
             is_attempt: Box::new(|p, d| d == [0x79, 0, 0, 0, p as u8]),
@@ -381,7 +425,7 @@ impl Check for C10 {
     fn id(&self) -> &'static str { "C10" }
     fn level(&self) -> &'static str { "fault_enumeration" }
     fn rule(&self) -> String {
-        "for every retrying protocol (Valve info/players/rules with Enforce and Try, GameSpy 1, 2, 3 and JC2-MP (handshake / data / alternating within the handshake-plus-request unit, whose wire sequence must be whole units), Quake 1/2/3, Unreal 2 info/rules/players with Enforce and Try, Java, Bedrock, legacy x3, Mindustry, FFOW) and every request position: all per-attempt outcome vectors over {silent, send-fails, malformed, valid} of length r+2 for r = 0..2 (quick) / 0..3 (thorough) injected at that position, other positions answered validly. From the transport log and the result: attempts at the position = min(index of first non-timeout outcome + 1, r+1); none after a malformed reply; first non-timeout outcome valid => result equals the fault-free result; malformed => failure of a non-timeout kind (or the Try section absent); all r+1 timeouts => PacketReceive/PacketSend (or the Try section absent). non-trivial = vectors containing at least one fault; distinct by (protocol, position, r, vector)".into()
+        "for every retrying protocol (Valve info/players/rules with Enforce and Try, GameSpy 1, 2, 3 and JC2-MP (handshake / data / alternating within the handshake-plus-request unit, whose wire sequence must be whole units), Quake 1/2/3, Unreal 2 info/rules/players with Enforce and Try, Java, Bedrock, legacy x3, Mindustry, FFOW) and every request position: all per-attempt outcome vectors over {silent, send-fails, malformed, valid} of length r+2 for r = 0..2 (quick) / 0..3 (thorough) injected at that position, other positions answered validly. From the transport log and the result: attempts at the position = min(index of first non-timeout outcome + 1, r+1); none after a malformed reply; first non-timeout outcome valid => result equals the fault-free result; malformed => failure of a non-timeout kind (or the Try section absent); all r+1 timeouts => PacketReceive/PacketSend (or the Try section absent). For Valve and Unreal 2 also every combination of 0..r timeouts at two or three positions of one query (the retry count is per request). non-trivial = vectors containing at least one fault; distinct by (protocol, position, r, vector)".into()
     }
     fn assumptions(&self) -> Vec<String> {
         vec![
@@ -430,6 +474,34 @@ impl Check for C10 {
         } else {
             None
         };
+        // the retry count is per request, not a budget for the query: timeouts at two or three positions of one query,
+        // each within its own r, still end in the fault-free result with k+1 attempts at each faulted position
+        if pos == 0 {
+            if let Some(run_multi) = &s.run_multi {
+                for r in 1usize ..= rmax {
+                    for code in 0 .. (r + 1).pow(s.positions as u32) {
+                        let ks: Vec<usize> = (0 .. s.positions).map(|p| (code / (r + 1).pow(p as u32)) % (r + 1)).collect();
+                        if ks.iter().filter(|k| **k > 0).count() < 2 {
+                            continue;
+                        }
+                        let fault = if code % 2 == 0 { Att::Silent } else { Att::SendFails };
+                        let plans: Vec<Vec<Att>> = ks.iter().map(|k| vec![fault; *k]).collect();
+                        let (out, net) = run_multi(&plans, r);
+                        cx.eval();
+                        cx.count("multi-position-vectors");
+                        let seen: Vec<usize> = (0 .. s.positions).map(|p| net.sends().iter().filter(|(_, d)| (s.is_attempt)(p, d)).count()).collect();
+                        let want: Vec<usize> = ks.iter().map(|k| k + 1).collect();
+                        let detail = |what: &str| json!({"what": what, "subject": s.name, "retries": r, "timeouts_per_position": ks, "attempts_seen_per_position": seen, "attempts_expected_per_position": want, "outcome": format!("{out:?}").chars().take(300).collect::<String>()});
+                        cx.nontrivial(hash64(format!("{}|multi|{r}|{ks:?}|{fault:?}", s.name).as_bytes()));
+                        match &out {
+                            Outcome::Returned(Ok(b)) if *b == base && seen == want => {}
+                            Outcome::Returned(Ok(b)) if *b == base => cx.violation(format!("C10 {} multi-position attempts-differ", s.name), || detail("attempts")),
+                            _ => cx.violation(format!("C10 {} multi-position result-differs-from-fault-free", s.name), || detail("each position had at most r timeouts, so the query must succeed")),
+                        }
+                    }
+                }
+            }
+        }
         let alts = s.malformed_alternatives.max(1);
         for (alt, (r, v)) in (0 .. alts).flat_map(|a| vectors(rmax).into_iter().map(move |x| (a, x))) {
             // the other malformed replies only matter for vectors that contain one
